@@ -90,6 +90,12 @@ def run_oriented(case, rec):
         dist = ["gaussian", "uniform", "rectangle", "boltzmann"][int(rng.integers(4))]
         sas.add_pd(pars, i.parameters[a], dist, int(rng.integers(2, 6)), float(rng.uniform(1, 40)),
                    float(rng.uniform(1.0, 1.7 if dist == "rectangle" else 3.0)))
+    if jit and k % 7 == 3:
+        # free rotation about one axis: a uniform distribution that goes all the way round (+-180 degrees), or a gaussian
+        # whose tails reach that far
+        full = [("uniform", 180.0, 1.0), ("gaussian", 65.0, 3.0), ("rectangle", 110.0, 1.7)][(k//7) % 3]
+        sas.add_pd(pars, i.parameters[jit[0]], full[0], int(rng.integers(3, 7)), full[1], full[2])
+        rec.bucket("jitter:whole-turn")
     if jit and k % 5 == 2:
         # a one-point jitter distribution with a non-zero width is the single jitter angle 0
         pars[jit[0] + "_pd_n"] = 1
@@ -223,6 +229,20 @@ def run_oriented(case, rec):
         m_.setParam(a2 + ".width", 0.0)          # set after, and different from, the first angle's settings
         m_.setParam(a2 + ".npts", 1)
         m_.cutoff = 0.0
+        if k % 12 == 7:
+            # the same object is first used for 1-D data (the page shows both views): once successfully, once with a
+            # mistyped distribution name, which is refused; the settings are then as they were
+            qabs_ = np.hypot(qx, qy)
+            try:
+                m_.evalDistribution(qabs_.copy())
+                m_.dispersion[a1]["type"] = "gausian"
+                try:
+                    m_.evalDistribution(qabs_.copy())
+                    rec.count("mistyped_distribution_name_accepted")
+                except Exception:
+                    rec.bucket("entry:sasview-after-refused-1d-evaluation")
+            finally:
+                m_.dispersion[a1]["type"] = "gaussian"
         Isv = np.asarray(m_.evalDistribution([qx.copy(), qy.copy()]), float)
         ps = {kk: vv for kk, vv in pars.items() if not any(kk == a + s_ for a in angles for s_ in ("_pd", "_pd_n", "_pd_nsigma", "_pd_type"))}
         ps.update({a1 + "_pd": w1, a1 + "_pd_n": n1, a1 + "_pd_nsigma": 2.0, a1 + "_pd_type": "gaussian"})
